@@ -97,33 +97,36 @@ def plan(tier, seed):
     if big:
         # (1) pairs: every protocol pair x direction x address shape at every MTU combination, payloads at both size
         #     limits, sender at the advertised headroom, unpadded and padded
-        add("edge", UD, ALLP, ALLC, EQ, FAMS, addrs53, [("none", "none"), ("all", "all")], ["adv"], [False])
+        add("edge", UD, ALLP, ALLC, EQ, SAME, addrs53, [("none", "none"), ("all", "all")], ["adv"], [False])
+        add("edge", UD, ALLP, ALLC, EQ, FAMS[2:], addrs53, [("all", "all")], ["adv"], [False])
         for m in MIX:
-            add("edge", UD, ALLP, ALLC, [m], [rnd.choice(SAME), rnd.choice(FAMS[2:])], addrs53, [("none", "none"), ("all", "all")], ["adv"], [False])
+            add("edge", UD, ALLP, ALLC, [m], [rnd.choice(FAMS)], addrs53, [("none", "none"), ("all", "all")], ["adv"], [False])
         # ... with every client configured (the largest front headroom the service computes)
-        add("edge", ["up"], ALLP, ALLC, EQ, SAME, addrs53, [("all", "all"), ("none", "none")], ["adv"], [True])
+        add("edge", ["up"], ALLP, ALLC, EQ, SAME, addrs53, [("all", "all")], ["adv"], [True])
         # (2) ports and policies
         addrs_pp = [addr(k, n, port) for (k, n) in [("v4", 0), ("v6", 0), ("dom", 2), ("m4", 0)] for port in PORTS]
-        add("edge", UD, ALLP, ALLC, [(1500, 1500, 0)], [("v4", "v4")], addrs_pp, pols9, ["adv"], [False])
-        add("edge", UD, ALLP, ALLC, [(9000, 1280, 0)], [("v6", "v6")], addrs_pp, [("dns", "dns"), ("all", "dns")], ["adv"], [True])
+        add("edge", UD, ALLP, ALLC, [(1500, 1500, 0)], [("v4", "v4")], addrs_pp, [("dns", "dns")] + rnd.sample([q for q in pols9 if q != ("dns", "dns")], 4),
+            ["adv"], [False])
+        add("edge", UD, ALLP, ALLC, [(9000, 1280, 0)], [("v6", "v6")], addrs_pp, [("all", "dns")], ["adv"], [True])
         # (3) sender layouts: payloadStart from minimal to generous
-        add("edge", UD, ALLP, ALLC, [(1500, 1500, 0), (1280, 1280, 0), (65535, 65535, 0)], SAME, some53, [("all", "none"), ("none", "none")],
-            ["min", "min1", "gen"], [False])
+        add("edge", UD, ALLP, ALLC, [(1500, 1500, 0), rnd.choice([(1280, 1280, 0), (65535, 65535, 0), (9000, 9000, 0)])], SAME, some53,
+            [("all", "none"), ("none", "none")], ["min", "min1", "gen"], [False])
         # (4) a sender with a larger MTU than the relay's receive window: dropped, not truncated
         add("trunc", UD, ALLP, ALLC, [(1280, 1280, 1500), (1500, 1500, 9000)], [("v4", "v4")], [addr("v4", 0, 53)], [("none", "none")], ["adv"], [False])
         # (5) jumbograms: the padding length cap, MTU above the jumbo threshold
         add("jumbo", UD, ALLP, ALLC, [(131072, 131072, 0)], SAME, [addr("v6", 0, 53), addr("dom", 255, 53)], [("all", "all")], ["gen", "adv"], [False, True])
     else:
-        mt = [(1500, 1500, 0), rnd.choice(EQ[:2] + EQ[3:] + MIX)]
+        mt = [rnd.choice([(1500, 1500, 0)] * 4 + EQ + MIX)]
         add("edge", UD, ALLP, ALLC, mt, [rnd.choice(FAMS)], addrs53, [("none", "none"), ("all", "all")], ["adv"], [False])
         add("edge", ["up"], ALLP, ALLC, [rnd.choice(EQ + MIX)], [rnd.choice(FAMS)], addrs53, [("all", "all")], ["adv"], [True])
         # policies where a packer pads; ports through every codec
-        addrs_pp = [addr(k, n, port) for (k, n) in [("v4", 0), ("v6", 0), ("dom", 2)] for port in PORTS]
-        add("edge", UD, SSP, SSC, [(1500, 1500, 0)], [rnd.choice(SAME)], addrs_pp, rnd.sample(pols9, 3), ["adv"], [True])
-        add("edge", UD, ALLP, ALLC, [rnd.choice(EQ)], [rnd.choice(SAME)], [addr("v4", 0, p) for p in PORTS] + [addr("dom", 2, 0), addr("dom", 2, 65535)],
+        addrs_pp = [addr(k, n, port) for (k, n) in [("v4", 0), ("dom", 2)] for port in PORTS]
+        add("edge", UD, SSP, SSC, [(1500, 1500, 0)], [rnd.choice(SAME)], addrs_pp, [("dns", "dns")] + rnd.sample([q for q in pols9 if q != ("dns", "dns")], 2),
+            ["adv"], [True])
+        add("edge", UD, ALLP, ALLC, [rnd.choice(EQ)], [rnd.choice(SAME)], [addr("v4", 0, 0), addr("v4", 0, 1), addr("v6", 0, 65535), addr("dom", 2, 0)],
             [("none", "none")], ["adv"], [False])
         # sender layouts: the sender side is a codec property, one or two relay pairings each
-        mt3 = [(1500, 1500, 0), rnd.choice([(65535, 65535, 0), (1280, 1280, 0), (9000, 9000, 0)])]
+        mt3 = [rnd.choice([(1500, 1500, 0), (65535, 65535, 0), (1280, 1280, 0), (9000, 9000, 0), (1492, 1492, 0)])]
         add("edge", ["up"], ALLP, ["ss0", "socks5"], mt3, [rnd.choice(SAME)], some53, [("all", "none"), ("none", "none")], ["min", "min1", "gen"], [False])
         add("edge", ["down"], ["ss0", "socks5"], ALLC, mt3, [rnd.choice(SAME)], some53, [("all", "none"), ("none", "none")], ["min", "min1", "gen"], [False])
         add("trunc", UD, ALLP, ALLC, [rnd.choice([(1280, 1280, 1500), (1500, 1500, 9000)])], [("v4", "v4")], [addr("v4", 0, 53)], [("none", "none")], ["adv"], [False])
@@ -168,7 +171,7 @@ def tlc_cases(tier, seed, consts, emit=True, extra=(), workers=16, timeout=None)
     cs = dict(consts)
     cs.update(Bases=plan(tier, seed), Deltas="{-2, -1, 0, 1, 2}", Small="{0, 1, 2, 3}", Gen=70000 if big else 2000, FixedLens=FIXED_LENS,
               EMIT="ACTION_CONSTRAINT Emit" if emit else "", INVARIANTS=INVARIANTS, PROPERTIES="PaddingShifts StagesAdvance")
-    r = vlib.tlc(SPEC, "MCUdpLayout", "MCUdpLayout.cfg", cs, workers=workers, timeout=timeout or (840 if big else 300), edges=False, keep_out=True,
+    r = vlib.tlc(SPEC, "MCUdpLayout", "MCUdpLayout.cfg", cs, workers=workers, timeout=timeout or (1500 if big else 600), edges=False, keep_out=True,
                  heap="12g" if big else "6g", extra=extra)
     return r
 
@@ -263,8 +266,11 @@ def run_live(v, binary, groups, seed, timeout):
     for res, out, rc in outs:
         if res is None and ("panic:" in out or "fatal error:" in out) and "shadowsocks-go/" in out:
             # a relay goroutine died: the program would have died
-            v.violation("udp.live/relay-crashes", "a live relay crashed while forwarding model cases: " + out[out.find("panic:"):][:600],
+            dump = out[out.find("panic:") if "panic:" in out else out.find("fatal error:"):]
+            frames = [l.strip() for l in dump.splitlines() if "shadowsocks-go/" in l and "(" in l]
+            v.violation("udp.live/relay-crashes", "a live relay crashed while forwarding model cases: %s  at %s" % (dump.splitlines()[0][:200], "; ".join(f[:120] for f in frames[:3])),
                         {"live": True, "groups": [dict(g, cases=len(g["cases"])) for ch in chunks for g in ch][:40]})
+            tot["crashed"] += 1
             continue
         res = common.absorb(v, res, out, rc, "live relays")
         tot["cases"] += res["behaviours"]
@@ -323,7 +329,27 @@ def run(tier, seed, replay):
     if len(cases) < 100:
         raise vlib.Broken("TLC printed only %d cases" % len(cases))
     vlib.log("[tlc] %d cases" % len(cases))
+    # vacuity guard: every kind of journey is present (a lattice that never reaches a stage proves nothing about it)
+    kinds = collections.Counter()
+    for x in cases:
+        kinds["st:" + x["st"]] += 1
+        kinds["origin-refuses" if x["o"]["e"] else "origin-packs"] += 1
+        if x["st"] == "refused" and not x["o"]["e"]:
+            kinds["relay-refuses"] += 1
+        if x["o"]["p"] > 0:
+            kinds["origin-pads"] += 1
+        if x["r"]["p"] > 0:
+            kinds["relay-pads"] += 1
+        if x["rb"]["rear"] > 0:
+            kinds["rear-headroom"] += 1
+        if x["rb"]["front"] > 0:
+            kinds["front-headroom"] += 1
+    for need in ("st:done", "st:refused", "st:dropped", "origin-refuses", "relay-refuses", "origin-pads", "relay-pads", "rear-headroom", "front-headroom"):
+        if not kinds[need]:
+            raise vlib.Broken("the case lattice holds no case of kind %s" % need)
     hist = collections.Counter(case_class(c) for c in cases)
+    if len(hist) != 2 * len(SERVER_PROTOS) * len(CLIENT_PROTOS):
+        raise vlib.Broken("the case lattice covers %d of %d (direction, server protocol, client protocol) triples" % (len(hist), 2 * len(SERVER_PROTOS) * len(CLIENT_PROTOS)))
     shapes = {case_shape(c) for c in cases}
     stages = collections.Counter(c["st"] for c in cases)
     t1 = time.time()
@@ -336,10 +362,11 @@ def run(tier, seed, replay):
     groups = live_groups(cases, tier, seed)
     live = run_live(v, binary, groups, seed, 600 if big else 150)
     vlib.log("[live] %d relays, %d cases, %.1fs" % (live["live_groups"], live["cases"], time.time() - t2))
-    if live["live_groups"] != len(groups):
+    if live["live_groups"] != len(groups) and not live["crashed"]:
         raise vlib.Broken("the driver ran %d of %d live relays" % (live["live_groups"], len(groups)))
     v.coverage.update(
-        evaluations=tot["behaviours"], distinct_nontrivial=len(shapes), real_calls=tot["steps"],
+        evaluations=tot["behaviours"], distinct_nontrivial=len(shapes), real_calls=tot["steps"], states=r.distinct, transitions=r.generated,
+        kinds=dict(kinds),
         rule="cases = TLC-enumerated lattice (server protocol x client protocol x direction x address shape x MTUs x families x "
              "padding policies x sender layout x payload lengths at both size limits); a case is distinct by its abstract shape "
              "(protocols, address kind, outcome, padding, layout, families, MTUs), non-trivial = at least one real pack call",
